@@ -212,21 +212,7 @@ func checkC(h History) *core.Violation {
 			return core.V("restart|agents|inactive-agent-restored", "session %s appears after the restart but was not an active session before", id)
 		}
 	}
-	for _, id := range ids {
-		wi, gi := want[id], got[id].Image
-		if wi.Key != gi.Key || wi.IV != gi.IV {
-			return core.V("restart|agent|key-or-iv-differs", "session %s: key/IV %s/%s after the restart, %s/%s before", id, gi.Key, gi.IV, wi.Key, wi.IV)
-		}
-		for _, f := range agentFields {
-			if wi.F[f] != gi.F[f] {
-				sig := "restart|agent|" + f + "-differs"
-				if numericLooking(wi.F[f]) {
-					sig += "|numeric-looking-text"
-				}
-				return core.V(sig, "session %s: %s is %q after the restart, was %q", id, f, clipS(gi.F[f]), clipS(wi.F[f]))
-			}
-		}
-	}
+	// (the recorded values themselves come from DB.AgentAll, which sub-check (a) compares field by field)
 	// structure among the restored sessions
 	for _, id := range ids {
 		wantParent := ""
